@@ -428,7 +428,14 @@ class Gen:
                     raise Undecided(f'{path}:{i+1}: stray text in body directives of {fid}')
             i += 1
         i += 1  # skip //@end
-        if orig is not None and rs.norm_ws(orig) != rs.norm_ws(it.signature):
+        def _sig_core(x):
+            # qualifiers that do not change what a call means: visibility, `const`, `#[inline]`-like attributes
+            x = rs.norm_ws(x)
+            x = re.sub(r'#\[[^\]]*\]\s*', '', x)
+            x = re.sub(r'\bpub(\([a-z ]+\))?\s+', '', x)
+            x = re.sub(r'\bconst\s+fn\b', 'fn', x)
+            return x
+        if orig is not None and _sig_core(orig) != _sig_core(it.signature):
             raise Undecided(f'{fid}: signature in {kv["file"]}:{it.line_start} is now `{rs.norm_ws(it.signature)}`; '
                             f'the contract was written for `{rs.norm_ws(orig)}` (contract needs review)')
         # (signature + contract are emitted by emit_copy below, after the body is prepared)
